@@ -217,19 +217,28 @@ func (p *Packer) packWalkFn(root, src, dst string, tarW *tar.Writer, meta *Meta,
 			return nil
 		}
 
-		if r := matchIgnoreRules(subpath, ignoreRules); r.Excluded {
-			return nil
-		}
-
-		// Catch directories so we don't end up with empty directories,
-		// the files are ignored correctly
-		if info.IsDir() {
+		if !info.IsDir() {
+			if r := matchIgnoreRules(subpath, ignoreRules); r.Excluded {
+				return nil
+			}
+		} else {
+			// Catch directories so we don't end up with empty directories,
+			// the files are ignored correctly
 			if r := matchIgnoreRules(subpath+string(os.PathSeparator), ignoreRules); r.Excluded {
 				if r.Dominating {
 					return filepath.SkipDir
 				} else {
 					return nil
 				}
+			}
+
+			// The directory's own entry: a rule may name the directory by its
+			// path or in its directory form, and the last such rule decides. (A
+			// directory re-included by a negated "dir/" rule, like
+			// .terraform/modules under the built-in rules, keeps its entry and
+			// with it its permissions and modification time.)
+			if r, _ := ignoreRules.ExcludesDir(subpath); r.Excluded {
+				return nil
 			}
 		}
 
